@@ -43,6 +43,11 @@ CLAIMED.update({
          "net/http connection handling and the accept loops are stubs; NASA/WattTime are unreachable in this flavour; GCA-signed inputs never assign one key to two ids."),
 })
 
+CLAIMED.update({
+ "C13": ("exploration", "5.13 + 3.10", "Deterministic part: 10-40 operations with the rotation and impact loops running; every place where an operation or job runs between two critical sections is a yield site; at each park 0-2 interfering operations from the menu {ban, authorize, report, rotate, statistics GET with insert_false_negatives, server post, sync} are injected; model effects are applied at every quiescent point in exactly the order of the real critical sections; after every step every mutex must be free (leaked-lock probe), mutex deadlocks are caught by a real-time watchdog, panics in background jobs by the parent. Race part (auxiliary, not deterministic): the same world free-running with 8-48 goroutines per workload in a -race binary; any report with repository frames is a violation.",
+         "Interleavings only at the hooked critical-section boundaries; the race part samples real schedules and cannot be replayed exactly (re-run up to 10 times)."),
+})
+
 NOT_YET = {
 }
 
